@@ -283,6 +283,37 @@ def _collect_sync(mk):  # noqa: ANN001, ANN202
 
 
 # ---------------------------------------------------------------------------------------
+# Pass-through functions never look inside their elements, so they must treat None / 0 / "" /
+# False like any other value (sentinel or truthiness confusion inside the implementation
+# shows only with such elements -- seeded change C19-b).  An "odd" case is the same case with
+# every element x replaced by ODD[x % 4]; callbacks that compute on elements are excluded.
+ODD = [None, 0, "", False]
+ODD_FNS = {"batched", "chain", "chain_from_iterable", "combinations", "combinations_with_replacement",
+           "permutations", "product", "compress", "cycle", "islice", "pairwise", "zip_longest",
+           "tee_seq", "tee_conc"}  # fmt: skip
+
+
+def oddify(case: dict) -> dict | None:
+    fn = case["fn"]
+    if fn not in ODD_FNS:
+        return None
+
+    def m(xs):  # noqa: ANN001, ANN202
+        return [ODD[x % 4] for x in xs]
+
+    c = dict(case, odd=True, xs=m(case.get("xs", [])))
+    p = list(case.get("p", []))
+    if fn in ("chain", "zip_longest"):
+        p = [m(q) if isinstance(q, list) else q for q in p]
+    elif fn == "product" and isinstance(p[0], list):
+        p = [m(p[0]), p[1]]
+    elif fn == "chain_from_iterable":
+        p = [[m(q) for q in p[0]]]
+
+    c["p"] = p
+    return c
+
+
 # case enumeration
 # ---------------------------------------------------------------------------------------
 def base_sequences() -> list[list[int]]:
@@ -632,6 +663,9 @@ def tee_cases(rng: random.Random, tier: str):  # noqa: ANN201
         }
 
 
+itertools_chain = I.chain
+
+
 def all_cases(tier: str, seed: int):  # noqa: ANN201
     rng = random.Random(seed * 7919 + 19)
     seqs = base_sequences()
@@ -640,6 +674,13 @@ def all_cases(tier: str, seed: int):  # noqa: ANN201
     yield from enumerate_cases(seqs, short, True)
     yield from random_cases(rng, 3000 if tier == "thorough" else 300)
     yield from tee_cases(rng, tier)
+    # the same with odd element values for the pass-through functions
+    stride = 1 if tier == "thorough" else 4
+    for i, c in enumerate(itertools_chain(enumerate_cases(seqs, short, True), tee_cases(rng, tier))):
+        if i % stride == 0:
+            o = oddify(c)
+            if o is not None:
+                yield o
 
 
 NSHARDS = 16
